@@ -381,6 +381,23 @@ async function op_like_batch(req) {
     return {out: out, error: error, direct: direct};
 }
 
+async function op_like_literal_batch(req) {
+    // the pattern is a string literal in the query text: one query per case over a one-column table of texts
+    let results = [];
+    for (let c of req.cases) {
+        let out = [];
+        let warnings = [];
+        let error = null;
+        try {
+            await rbql.query_table(c.query, c.texts.map((t) => [t]), out, warnings);
+        } catch (e) {
+            error = err_info(e);
+        }
+        results.push({out: out.map((r) => r[0]), error: error});
+    }
+    return {results: results};
+}
+
 async function op_like_cross(req) {
     // cross product texts x patterns through the public path; result packed as a string of 0/1 (pattern-major)
     let rows = [];
@@ -522,6 +539,7 @@ async function handle(req) {
         case 'stream_vs_bulk': return await op_stream_vs_bulk(req);
         case 'query_unbounded': return await op_query_unbounded(req);
         case 'like_cross': return await op_like_cross(req);
+        case 'like_literal_batch': return await op_like_literal_batch(req);
         default: return {error: {cls: 'DriverError', msg: 'unknown op ' + req.op}};
     }
 }
